@@ -146,7 +146,9 @@ CHECKS = {
         technique=("property-based testing (rapid) of generated fault scripts and externally timed Remove/Reconnect/Add calls against the real manager.Manager "
                    "under virtual time (testing/synctest), with a per-target runtime monitor (trace predicates) over the totally ordered trace of callbacks, "
                    "dial/stream events and external calls; part real: the same manager over the REAL connection.Manager with scripted dial functions "
-                   "(dial deadline and cancellation travel through the shared-dial machinery), judged by the same monitor plus bounded-virtual-time clauses"),
+                   "(dial deadline and cancellation travel through the shared-dial machinery), judged by the same monitor plus bounded-virtual-time clauses; "
+                   "the target configuration the manager passes on (dialer name with one scripted dial function per registered dialer, address lines and next hops, "
+                   "credentials with scripted lookups, meta keys, shared configuration objects) is a generated dimension, and 'retried' is judged on the dial functions' own call record"),
         level_text=("Thousands (quick) to 320 000 (thorough) generated scenarios: 1-3 targets on shared or distinct addresses, each with a script of up to 6 "
                     "connection attempts (dial refused / hanging until cancelled or until Config.Timeout / answering after a delay; stream constructor failing; Send failing; "
                     "0-5 messages - update, sync, deprecated error response, response without any arm - each after 0-7 s of silence, updates optionally consumed by a slow "
@@ -180,7 +182,23 @@ CHECKS = {
                     "gap between attempts is bounded by dial timeout + backoff); every Remove, run on its own goroutine, has returned within dial bound + largest retry delay of virtual time "
                     "(otherwise 'remove-never-returns'; the case is then wound down by failing every pending dial). Sensitivity of this part: detaching the shared dial from its starter's "
                     "context (context.WithoutCancel, with or without re-attaching the deadline), a 100x dial timeout, a retry loop that gives up after DeadlineExceeded are reported within 5 "
-                    "cases; a connection manager that detaches the dial but lets waiters honour their own context passes."),
+                    "cases; a connection manager that detaches the dial but lets waiters honour their own context passes. "
+                    "Target configuration (config.go; parts real and random): every field of *tpb.Target the manager reads or passes on is drawn per target - dialer: default / one of "
+                    "0-2 named dialers registered through connection.NewManagerCustom / a name that is not registered; in part real every registered dialer is a dial function of its own "
+                    "with its own script per address (Scenario.NamedDials), targets naming different dialers share addresses; addresses: 1-3 lines with 0-2 further hops each, starting with "
+                    "one next hop or (part real) with several, so that one attempt makes several Connection calls in map order; credentials: none / username+password / username+password_id "
+                    "with a scripted Config.Credentials.Lookup per attempt (ok, failing, empty password) / username alone / password_id with Config.Credentials nil; meta: further keys, "
+                    "including the ones the manager generates itself (target, username, password, address, addresses), receive_timeout values that set no timeout in part real; the same "
+                    "*tpb.Target object handed to every Add of a name or a copy per Add, one object shared by two names. Additional clauses: (part real, checkFreshDials) every error answer "
+                    "of the connection manager to a Connection call of the manager must be the failure of a dial function call to that address that ENDED between the call and the answer "
+                    "(virtual instants) - an answer without one is the remembered failure of an earlier attempt, class retry-without-dial, however many ConnectError reports there are - except "
+                    "when the context of the call had ended or the error is 'no such dialer' on an address an unregistered dialer name is configured for; a failed credentials lookup is a failed "
+                    "attempt and a lookup begins the next one (same backoff window); Connection calls to distinct next hops at the instant the previous hop failed, without an error callback in "
+                    "between, are one attempt; a target that stays managed longer than the retry bound after its Add without any attempt having started is reported (no-attempt-after-add; also "
+                    "after Remove + Add). With every failure followed by a new Connection call within the backoff bound, this is what makes a target connect once its scripted dials succeed. "
+                    "Sensitivity: connection entries keyed by dialer+address but evicted by bare address after a failed dial (seeded C13-P), no eviction of failed dials of named dialers, a retry "
+                    "loop that parks after a failed credentials lookup, Add refusing a configuration object already in use, a connection manager that never answers for an unknown dialer are "
+                    "all reported in the quick tier."),
         level_note=("trusts the ~350-line monitor (unit-checked on hand-made traces: TestSelfJudge) and the in-memory doubles (ConnectionManager handing out an idle "
                     "grpc.NewClient connection that is never used, scripted gpb.GNMI_SubscribeClient whose Recv/Send/dial return ctx.Err() as soon as their context ends, "
                     "target attribution through the outgoing metadata key 'target' the manager sets); external calls land only at quiescent points of virtual time (including inside "
@@ -191,9 +209,15 @@ CHECKS = {
               "over >=1 message (not counting streams ended by the harness's final clean-up Removes) AND a generated Remove or Reconnect that lands mid-session "
               "(Connect reported, stream alive, Recv blocked or Update callback running) or mid-backoff (failure seen, next Connection call not yet started); "
               "distinct = distinct hash of the scenario; real: non-trivial = a dial function that did not answer at once AND (a dial ended by the manager's dial deadline OR a generated "
-              "Remove / Reconnect / Add landing while a Connection call of its target - for a fresh Add: a dial to its address - is outstanding)"),
+              "Remove / Reconnect / Add landing while a Connection call of its target - for a fresh Add: a dial to its address - is outstanding), OR a dial function of a named "
+              "dialer called again for an address after a call of it for that address had failed; labels dialer=*, dialfn-of-dialer:*, redial-after-failed-dial:*, addresses=*, "
+              "cred=*, cred-lookup-*, meta-keys, config-object-* show the configuration dimension"),
         assumptions=COMMON + [SYNCTEST_ASSUMPTION,
-                              "one address per target (createConn tries a target's next hops in map order, which would make traces irreproducible); no credentials lookup",
+                              "one next hop per target outside part real (createConn tries a target's next hops in map order, which makes traces irreproducible; in part real the verdicts do "
+                              "not depend on the order, a replayed multi-next-hop case may take the other order); credentials lookups answer at once (parts random and real; held lookups: part overlap)",
+                              "a 'retry' is a new attempt to reach the target: in part real a Connection call answered with an error counts only if a dial function call to the address ended in "
+                              "failure while it was outstanding (the statement's 'retried' read on the dial functions' record; a connection manager that remembered failures for a while would be reported); "
+                              "an attempt that fails on unusable credentials (username alone, password_id without Config.Credentials) is invisible to the harness and only the universal clauses apply to such a target",
                               "collaborators honour context cancellation promptly, as gRPC dials and streams do; Recv never returns (nil, nil)",
                               "callbacks return at once, except Update callbacks with a scripted cost; slow callbacks are never combined with receive timeouts: Remove holds the "
                               "manager-wide mutex while it waits for the target's goroutine, a receive-timeout goroutine calling Reconnect meanwhile waits on that mutex, and synctest "
@@ -270,7 +294,10 @@ CHECKS = {
                               "a plain BaseClient/CacheClient is only closed once Subscribe has produced an Impl (Close before that is documented to return ErrClientInit and stop nothing); "
                               "Close before Subscribe and during the initial connect are exercised on the reconnecting client",
                               "cancellation of the caller's context is judged like Close for the return of Subscribe (the quantifier of the property lists it)",
-                              "half B runs over loopback TCP in real time with RetryBaseDelay 1 ms / RetryMaxDelay 2 ms"],
+                              "half B runs over loopback TCP in real time with RetryBaseDelay 1 ms / RetryMaxDelay 2 ms",
+                              "a nil callback of client.Reconnect is judged as absent: the discipline of the other callback is the one the property states, unchanged by the absence",
+                              "part real: the context given to Subscribe ending (cancel function or deadline) is judged like Close for the return of Subscribe also over the real transport "
+                              "(gRPC ends a stream whose context is done); Query.TunnelConn is one connection and is only generated for plain clients (a retry would find it used up)"],
         parts=[
             dict(name="random", run="TestC18Random", checks=dict(quick=3000, thorough=20000), shards=dict(quick=1, thorough=16)),
             dict(name="lifetime", run="TestC18Lifetime", checks=dict(quick=5000, thorough=20000), shards=dict(quick=1, thorough=8)),
@@ -286,7 +313,9 @@ CHECKS = {
         technique=("model-based property testing (rapid) with the schedule as generated data: every case runs in a synctest bubble, one step at a time to quiescence, "
                    "with a scripted dial function and the gates conn.dial.result / conn.wait; oracle = per-address generation model (pending dial, sharers, holders) "
                    "compared with returned connections, errors, dial-function invocations and connectivity state after every step; "
-                   "Close() calls made by the scenario itself are recorded, so a manager close is told from a holder's close"),
+                   "Close() calls made by the scenario itself are recorded, so a manager close is told from a holder's close; "
+                   "part closing: the last release as a call that takes time - ClientConn.Close() parked inside the bubble by a harness-owned name resolver / transport net.Conn whose Close() waits for a gate, "
+                   "further calls started meanwhile, quiescence modulo lock waiters read from the goroutine states"),
         level_text=("Generated scenarios (1-3 addresses, 2-8 requester threads, 1-42 steps: Connection() calls with background / own / already cancelled contexts and an optional "
                     "unknown dialer name, releases, repeated releases, calls of the done func returned with an error, dial function told to return a fresh idle grpc.NewClient "
                     "connection or an error (at once or in a later step), context cancellations, parks and releases at conn.wait and conn.dial.result) are executed against the real "
@@ -310,6 +339,16 @@ CHECKS = {
                     "address's pending dial / held connection went through is answered is not prescribed (the unchanged code shares; an error, at once or after the dial, and a dial of its own while none is in "
                     "flight are accepted); the clauses are judged per hand-out: a request answered with an error holds nothing (the connection is SHUTDOWN right after the last requester that was handed it "
                     "released it and the next request dials afresh; its done func changes nothing), one that was handed the connection is a holder like any other, never two dials in flight for one address. "
+                    "Connectivity at the last release (part closing; also a dimension of stress, storm and convoy): the connection whose last holder releases it is IDLE, CONNECTING, TRANSIENT_FAILURE, READY "
+                    "(a gRPC server inside the bubble / of the round over net.Pipe; also dial functions that only return READY connections, as a blocking dial does) or READY-then-dropped, and other calls race that release. "
+                    "Part closing (stepwise, 1-3 rounds per case): the Manager's ClientConn.Close() of the last release PARKS - the resolver's or the transport's Close(), harness code, waits for a gate - while 1-5 further calls are "
+                    "started one at a time: requests for the address being closed and for another one (background / own context, cancelled meanwhile), repeated releases, one more call of the parked done func, the last release "
+                    "of the other address, releases by requests that returned inside the window. Whether such a call waits behind the Manager's lock or completes at once is not prescribed; demanded: a connection handed to a "
+                    "request is never SHUTDOWN before that request released it (so a request made after the last release began is never handed the connection being closed), the released connection is SHUTDOWN when the release "
+                    "has returned, at every quiescent point an address has at most one open connection - the one its holders hold, none without holders -, one dial in flight per address, every call returns once the gate is open, "
+                    "afterwards releases one at a time close at the last one, done funcs again change nothing, the next request dials afresh. Stress: two rounds in five use READY connections, one in five CONNECTING / "
+                    "TRANSIENT_FAILURE / mixed ones, holders yield between their looks at the state; storm: half of the cases have dial functions that connect (READY after a blocking dial, refused, hanging); convoy: the lever's "
+                    "connection is READY in half of the cases and a fifth of the requests ask for the lever's own address while its last release is inside Close. "
                     "Bounded random exploration, not a proof."),
         level_note=("trusts the ~150-line generation model in connprop/run.go; 'closed exactly once' is decided as: open while held, SHUTDOWN at zero, forgotten afterwards, no later release "
                     "touches the successor (a second Close of the same *grpc.ClientConn is not observable through the exported API); calls are serialised by quiescence, the only "
@@ -324,7 +363,10 @@ CHECKS = {
               "non-idle connectivity state, or was released from several goroutines at once; "
               "dialers: cases are scenarios as above plus the set of names the Manager is built without; non-trivial = some request named another dialer than the one the pending dial / held connection "
               "of its address was started through and was answered (handed the connection, or an error); the labels prefixed 'dialer:' / 'ctx:' count the shapes (other name meets pending dial / held "
-              "connection, unregistered name, deadline expired while waiting / holding / on the originator of a pending dial)"),
+              "connection, unregistered name, deadline expired while waiting / holding / on the originator of a pending dial); "
+              "closing: cases are 1-3 rounds (holders, connectivity state, gate, calls made meanwhile); non-trivial = in some round the Close of the last release was parked, the connection had left IDLE and a request for "
+              "the address being closed was started meanwhile; labels 'close-parked-in-state-*', 'window:*' count the shapes; stress / storm / convoy: labels 'released-in-state-*', 'connections-*', 'connected:*', "
+              "'request-for-the-address-whose-last-release-is-inside-close' count the connected variants"),
         assumptions=COMMON + [SYNCTEST_ASSUMPTION,
                               "connections are idle grpc.NewClient(\"passthrough:///<addr>\") clients with insecure credentials: no network; closed is observed as connectivity.Shutdown",
                               "who closed a connection is decided by bookkeeping: the scenario records each of its own Close() calls before making it; a connection found SHUTDOWN while held that the scenario did not close was closed by the manager. "
@@ -335,7 +377,10 @@ CHECKS = {
                               "request for any address in any state; C16 does not say what a request naming another dialer than the cached attempt's is answered, so sharing, an error, and a dial of its own while no dial "
                               "for the address is in flight are all accepted, and a request naming an unregistered dialer must not reach a dial function)",
                               "in the stepwise parts every done func is called from one goroutine at a time (releases are separate steps; the stress, storm and convoy parts call one done func from several goroutines at once); in the stepwise parts races between Connection() and done() are serialised by "
-                              "the manager's mutex and are explored only through the two gates"],
+                              "the manager's mutex and are explored only through the two gates",
+                              "part closing: gRPC's ClientConn.Close() waits for resolver.Close() and for the transport's net.Conn.Close() (true of the vendored grpc v1.69.2; if it did not, the gate would not be reached, which the label "
+                              "'gate-armed-but-close-did-not-reach-it' shows); while a Close is parked the harness reads goroutine states (runtime.Stack) to see that every goroutine is blocked, durably or on a lock - this selects and labels "
+                              "the interleaving only, every verdict is taken from values that hold under any schedule"],
         parts=[
             dict(name="random", run="TestC16Random", checks=dict(quick=3000, thorough=30000), shards=dict(quick=1, thorough=16)),
             # free-running: the windows inside one release/acquire (last release racing a new request) on the real scheduler; holder-local oracles
@@ -364,6 +409,10 @@ CHECKS = {
             # name (default, a second scripted one, always-failing, always-succeeding, never registered, left out of this case's Manager) varies between the requests for the address
             # while a dial is pending, the connection is held or was just released; contexts background / already cancelled / cancelled later / deadline in virtual time (tick steps)
             dict(name="dialers", run="TestC16Dialers", checks=dict(quick=3000, thorough=30000), shards=dict(quick=1, thorough=8)),
+            # the last release as a call that takes time (stepwise in a bubble): ClientConn.Close() of a connection in any connectivity state (IDLE / CONNECTING / TRANSIENT_FAILURE / READY over net.Pipe to an
+            # in-bubble gRPC server / dropped) parks in a harness-owned resolver or transport Close(); requests for that and another address, repeated releases, another call of the parked done func, cancellations
+            # are started meanwhile; either-way oracle (waiting behind the lock and completing at once are both fine), holder-local and per-address invariants
+            dict(name="closing", run="TestC16Closing", checks=dict(quick=800, thorough=10000), shards=dict(quick=1, thorough=8)),
         ],
     ),
     "C04": dict(
@@ -456,6 +505,8 @@ CHECKS = {
             "the choice among several ready cases of the select inside Next is made by the Go runtime and is not a function of VERIF_SEED; oracles accept every outcome the property allows, "
             "label/non-trivial counts of the concurrent part can therefore differ by a few cases between runs with the same seed",
             "an Insert that passed the closed check before Close() and completes after it did not 'complete before the queue was closed': it may be delivered, coalesced or never delivered; only a consumer that hangs is a violation there",
+            "lock watch (class deadlock-on-lock): every case runs inside a synctest bubble and no goroutine outside a bubble ever holds a lock of the code under test; the moments at which the monitor "
+            "looks are real time, the verdict is the goroutine states (nothing runnable, a lock waiter, unchanged at a second look); glog writes to files under -log_dir (the driver sets it)",
         ],
         parts=[
             dict(name="exhaustive", run="TestC11Exhaustive", rapid=False),
@@ -687,13 +738,23 @@ CHECKS = {
         level_text=("Thousands of generated histories (updates, multi-entry, atomic, exact/subtree/glob deletes, both path encodings, keyed paths, "
                     "timestamps drawn relative to the addressed leaf / latest accepted / clock at -3..+3*threshold, stubbed cache.Now, "
                     "future threshold on/off, emulation on/off) are run against the real cache on one goroutine; after every step the returned "
-                    "error class and the full Query(*) content (path, timestamp, value) must equal a reference model. Bounded exploration."),
+                    "error class and the full Query(*) content (path, timestamp, value) must equal a reference model. Bounded exploration. "
+                    "Added (seed P): the caller's containers are the caller's - the FEEDER STYLE is a scenario-level dimension (cacheprop/feeder.go): fresh objects for every notification / "
+                    "batch buffers (the []*Update and []*Path lists of a target's notifications live in one long-lived backing array, truncated and refilled with fresh messages for the next batch) / "
+                    "everything re-used and scribbled (one arena for the element arrays of prefix and delete paths, PathElem objects, key maps, delete paths, prefix object and the notification struct "
+                    "re-used in place for the next call; right after every call list slots - spare capacity included - are overwritten with nil / other messages, paths and prefix rewritten, target renamed "
+                    "to another target, struct fields reassigned, and the messages of a refused single/atomic notification overwritten in place, payload bytes included). The model and the feed bookkeeping "
+                    "hold clones taken before the call, so the verdict is against what was SUBMITTED; in addition the notification a query returns for a leaf must be addressed to that leaf."),
         level_note=("trusts the reference model (decide/interpret in cacheprop/run.go) and gn.RefIndex/gn.Matches; the two decisions the property leaves open "
                     "(same timestamp + same value in another encoding; whether a multi-update notification's own timestamp already counts as latest) accept either outcome; "
                     "one path encoding per notification; timestamps > 0; no metadata paths from the target (C12)"),
         rule=("cases are histories of 1-60 steps over 1-2 targets; non-trivial = the history contains an update at or below the stored timestamp of an existing leaf "
-              "AND a delete that removed at least one leaf; distinct = distinct hash of the scenario"),
-        assumptions=COMMON + ["cache.Now is stubbed with a scenario-controlled clock", "random part: single goroutine, every step is a quiescent point"],
+              "AND a delete that removed at least one leaf; distinct = distinct hash of the scenario; labels feeder:* give the feeder style of the case, "
+              "update-list-slots-of-still-stored-leaves-overwritten marks cases where a re-used list was overwritten while leaves stored from its last batch were still held"),
+        assumptions=COMMON + ["cache.Now is stubbed with a scenario-controlled clock", "random part: single goroutine, every step is a quiescent point",
+                              "feeder styles: what the cache accepts as one stored unit (a single-update or atomic notification it did not refuse, with its prefix and lists; every Update message) is the cache's "
+                              "from then on and is never touched by the harness - the unchanged cache stores exactly those objects without copying ('avoid the unnecessary proto.Clone call'); "
+                              "the struct, prefix, lists and delete paths of a notification the cache splits or stores nothing of, and everything of a refused single/atomic notification, stay the caller's"],
         parts=[dict(name="random", run="TestC02Random", checks=dict(quick=2000, thorough=25000), shards=dict(quick=4, thorough=16)),
                # one target fed from 2-4 goroutines at once, each writing its own leaves (real scheduler, aligned starts): per-leaf discipline and the
                # target's latest accepted timestamp must come out as in any sequential order
@@ -706,7 +767,10 @@ CHECKS = {
         level_text=("Same engine as C02 plus Reset/Remove/Add/Sync/Connect/ConnectError/UpdateMetadata and shared prefix objects with spare capacity. "
                     "After every step the replayed feed must equal Query(*) for every target (metadata leaves included); per call the feed entries must be exactly those the model "
                     "predicts, in order (suppression allowed only for an unchanged value with emulation on); each history is re-run with multi-entry notifications split into singles "
-                    "and must end in the same content and replayed feed; the submitted notification and the spare capacity of shared prefixes must be untouched. Bounded exploration."),
+                    "and must end in the same content and replayed feed; the submitted notification and the spare capacity of shared prefixes must be untouched. Bounded exploration. "
+                    "Added (C02 seed P): feeder styles as a scenario-level dimension (see C02; cacheprop/feeder.go): callers that re-use and overwrite the containers they still own after the call. "
+                    "'Input unmodified' follows the feeder: messages the feeder has not rewritten must still equal their clones, every slot of the feeder's re-used arrays (spare capacity included) must hold "
+                    "the pointer the feeder put there, and a delete handle given to the feed must still read the same at the next quiescent point although the caller's objects have been scribbled."),
         level_note="trusts the replay function (update sets, atomic replaces its container, delete removes what it matches) and the model; multi-vs-singles only with threshold off",
         rule=("cases are histories of 1-60 steps over 1-3 targets; non-trivial = a delete that produced >=2 feed entries for leaves stored through one shared prefix object, "
               "or a multi-entry notification mixing accepted and rejected updates; distinct = distinct hash of the scenario"),
@@ -1018,11 +1082,23 @@ EXT2 = {
                 technique="; conditional deletes under stateful conditions judged by consistency between the condition's answers and the delete's effects",
                 rule=(" alias: cases are 1-40 ops with caller-owned buffers; non-trivial = a path slice obtained from the tree was kept across a later op and an argument buffer was re-used or overwritten."
                       " rich (values): also non-trivial = a leaf holding a tree-related value (kinds 7-13) was overwritten, deleted, or an Add went through it."
-                      " callback: cases are 2-8 adds followed by 1-24 ops (add, readd, Delete, DeleteConditional, WalkDeleted, Query, Walk, WalkSorted); non-trivial = a conditional delete whose condition is "
+                      " callback: cases are 1-8 adds followed by 1-24 ops (add, readd, Delete, DeleteConditional, WalkDeleted, Query, Walk, WalkSorted); non-trivial = a conditional delete whose condition is "
                       "not a predicate of the value accepted at least one leaf.")),
     "C11": dict(level_text=(" Further: backlogs of 1000-9000 items worked down to fractions of their peak, a hot item inserted up to 70000 extra times, items of six kinds incl. the nil interface; stress: "
                             "Close from several goroutines at once and Close under fire (every insertion that returned before Close was called is delivered). Part window: the consumer parked between "
-                            "its emptiness check and its select while inserts complete, the queue is closed and another goroutine holds the queue's mutex when it resumes; 24 repeats per case.")),
+                            "its emptiness check and its select while inserts complete, the queue is closed and another goroutine holds the queue's mutex when it resumes; 24 repeats per case. "
+                            "Logging verbosity as a dimension: code inside `if log.V(n)` blocks of the queue (formatting, extra locking, calls of the queue's own methods) runs only when the process's "
+                            "glog verbosity is >= n, which no test of the repository sets. The exhaustive part repeats every sequence of <=6 calls at -v=2 and at -v=3 and every sequence of <=5 at -v=1 "
+                            "(457,224 sequences in all; the verbosity is a field of the scenario); the rapid parts draw -v per case (0 in half of them, else 1-3; recorded in the replay file). "
+                            "A call that waits for a lock nobody is left to release (a method calling another locking method with the queue's non-reentrant mutex held, a lock kept over a blocking "
+                            "select, ...) is not a 'durable' block for synctest, so every part runs under a lock watch: a monitor outside the bubbles looks at the goroutine states when a case lasts "
+                            "longer than 1.5 s and declares class deadlock-on-lock iff no goroutine of any bubble can run, at least one waits for a lock, and a second look 2.5 s later is identical "
+                            "(goroutine states, not a timeout); the stuck scenario with its verbosity is the replay. Second queue lifetime: an exhaustive sequence that ends closed, drained and told "
+                            "so continues with NewQueue() for the next subscriber and then Insert/Len/IsClosed/Next through the OLD handle (must stay refused/0/true/closed) and through the new one "
+                            "(delivers exactly what was put into it)."),
+                technique="; glog verbosity as a scenario dimension in every part; structural lock-deadlock verdict (goroutine states) for calls that block on the queue's own mutex",
+                rule=(" exhaustive at verbosity>0: same cases and non-trivial rule, the verbosity is part of the hashed scenario (labels glog-verbosity>0, glog-verbosity>0:nontrivial, "
+                      "glog-verbosity>0:insert+next+close+len-in-one-sequence; concurrent part: glog-verbosity>0:<event> for close-with-pending, waiting-consumer-woken-by-close/-insert, cancel-while-waiting, ...)")),
     "C12": dict(level_text=" Part storm: one request (ONCE/POLL, failing or valid, optionally cancelled mid-answer) served 100-3200 times at once from 2-16 goroutines on the real scheduler against one server."),
     "C13": dict(level_text=(" Part long: 20 ms-1 h retry profiles, up to 160 scripted attempts, failing streaks of 20-120 virtual minutes; error values shaped as gRPC produces them (status Canceled / "
                             "DeadlineExceeded / Unavailable, wrapped, io.EOF) for every scripted failure and cancellation.")),
@@ -1078,6 +1154,35 @@ EXT2 = {
 }
 # round 5 (seeds I, J)
 EXT3 = {
+    "C18": dict(technique=("; every optional field of client.Query and every nil / given combination of the two client.Reconnect callbacks as generated dimensions; real-transport subscriptions ended "
+                           "through their context, decided by a structural quiescence verdict (goroutine states and socket queues of the process) instead of a time guard"),
+                level_text=(" Added (seeds O, P): (1) the constructor arguments of client.Reconnect are a dimension of every part that builds a reconnecting client (random, lifetime, entry, types, content, "
+                            "real): both callbacks (half of the cases), none, only disconnect, only reset (a sixth each); one shared judge (harness/clientprop/callbacks.go) demands the discipline of the "
+                            "callbacks that were GIVEN - disconnect once per ended attempt; reset exactly once between the end of an attempt and the begin of the next, none before the first attempt - a nil "
+                            "one is simply absent; a panic of Subscribe / Close / Poll is recovered on the calling goroutine and reported as class panic (shrinkable) instead of killing the process. "
+                            "(2) Every field of client.Query (harness/clientprop/realquery.go lists them and where each is generated): part real draws per Subscribe step 0-4 of Extra, Credentials, Replica, "
+                            "UpdatesOnly, AddressChains, Encoding, empty Target, SubReq besides / instead of Queries, ProtoHandler instead of NotificationHandler (BaseClient), Timeout unset, and - plain "
+                            "clients - Query.TunnelConn (a TCP connection made by the harness, with or without Addrs); the types Poll and Once; a fifth of the cases run the server with TLS and every query "
+                            "with Query.TLS; parts random / lifetime / entry draw the same options (plus TLS and a tunnel connection, kind tunnel-no-addrs) over the scripted transport, where client.go itself "
+                            "reads them (Validate, Destination). An option never makes an invalid query valid; nothing about the options is judged beyond the unchanged clauses. "
+                            "(3) Part real: HOW a subscription ends - the shapes of the caller's context of half A (cancel function, value, parent, own / parent / wrapped deadline of 0-40 ms real time) and "
+                            "not only Close, against servers that hold the stream open and QUIET or are MID-BURST (a gate opened by the step: the handler sends back to back until the stop action has been "
+                            "issued, then 4-64 messages more, then stays quiet); a profile (a third of the cases) aims at exactly this. Every call whose context has ended is awaited BEFORE the closing "
+                            "Close (which would end the stream by closing the connection); one case in four keeps the older race. The clause 'Subscribe returns once its context has ended / its reconnecting "
+                            "client was closed' is decided structurally (harness/clientprop/realquiet.go): after 20 ms the harness LOOKS at the process every 2 ms; three consecutive looks that find it "
+                            "quiescent - every goroutine parked on a channel / select / lock / the network poller, none running, runnable, in a system call, in time.Sleep, in a dial or in a harness trap; "
+                            "every TCP socket of the case LISTEN / ESTABLISHED / TIME_WAIT with empty send and receive queues (/proc/self/net/tcp) before and after the goroutines were read; the trace not "
+                            "growing - while the stopped call has not returned are class stop-ignored (close-blocks for the closing Close); the message says where the Subscribe goroutine is parked. Sound "
+                            "because every way the news of a stop action travels (a goroutine made runnable, bytes in a socket, the backoff sleep) is visible in such a look, so the unchanged client is "
+                            "never quiescent between stop action and return; a merely slow process is not quiescent and is looked at again; a label records any quiescent look that was followed by a "
+                            "return (never seen). The 30 s guard (INCONCLUSIVE) remains for everything that is not quiescent. Sensitivity (scratch worktree): the seeded changes O, P and six of the "
+                            "author's own - context detached for queries with Credentials / a deadline / a ProtoHandler or Poll type in client/gnmi, for UpdatesOnly in BaseClient.Subscribe, disconnect "
+                            "dropped when reset is nil, reset called twice when disconnect is nil - are each reported within the quick budget."),
+                level_note=("; the hang verdict of part real trusts the goroutine states printed by runtime.Stack and the queue lengths of /proc/self/net/tcp (Linux; if unreadable only the guard remains), and "
+                            "that the only timers armed on the judged paths are the backoff sleep, the dial timeout, the harness's traps (all excluded from 'quiescent'), the caller's deadline (awaited first) "
+                            "and HTTP/2 keepalive (hours); what the server receives of the query options (metadata, credentials, request fields) is not judged"),
+                rule=(" real: non-trivial additionally = a subscription whose server held the stream open (quiet or mid-burst) was ended through its context (cancel function or deadline) and awaited "
+                      "without any Close")),
     "C06": dict(technique=("; requests dressed with every field the server does not implement, compared with their undressed twin; virtual time passing between operations"
                            "; the number of entries of a notification (1 - 1100, sampled around 64 / 128 / 1024) as a dimension of the filter, both directions of the 'iff' for every subscriber"),
                 rule=(" size: cases are scenarios around one table (1-3 table notifications, 2-7 subscribers or a crowd of 9-130); non-trivial = a notification of 65+ entries meets, at once, a "
